@@ -194,6 +194,10 @@ func cmdCheck(args []string) int {
 			}
 			a.entries[e.Fn] = true
 		}
+		if st["ok"] > 0 {
+			id := e.Fn + ".returns-without-panic[all paths outside the listed panic sites]"
+			obl[id] = &agg{oblStat: oblStat{Checked: st["ok"], Discharged: st["ok"]}, entries: map[string]bool{e.Fn: true}}
+		}
 		nW := 0
 		for pi, p := range r.Paths {
 			transitions += p.Branches
